@@ -33,7 +33,7 @@ def pinnedSkeleton : List (String × String) := [
   ("exeParser.readSelectionSet", "633413140d11"),
   ("exeParser.readVarDef", "d6b69b1b20cb"),
   ("exeParser.readVarDefs", "007f8ff5b513"),
-  ("parseExe", "b8364a668618"),
+  ("parseExe", "b2fc5513a9c5"),
   ("parseSDL", "5c0f8828856d"),
   ("parser.putBack", "53625e41ee42"),
   ("parser.readArgValue", "88c58bf573bb"),
@@ -92,7 +92,7 @@ theorem C03_parseValue_total_current (bytes : List UInt8) (tail : Tail) :
 
 /-- **C03 for request documents on the tables of this run** -/
 theorem C03_parseExe_total_current (bytes : List UInt8) (tail : Tail) :
-    (ExeCF.parseExe genCM { varTypeOptional := Gen.exeVarTypeOptional } (sdlFuel bytes) bytes tail).2.oof = false :=
+    (ExeCF.parseExe genCM { varTypeOptional := Gen.exeVarTypeOptional, opErrPosAfterLookahead := Gen.opErrPosAfterLookahead } (sdlFuel bytes) bytes tail).2.oof = false :=
   C03_parseExe_total genCM gen_numStart_isNum_all _ bytes tail
 
 theorem gen_quote_not_space : genCM.isSpace 34 = false := by decide
